@@ -1,12 +1,16 @@
 package props
 
 import (
+	"encoding/json"
+	"os"
+	"path/filepath"
 	"testing"
 	"time"
 
 	"pgregory.net/rapid"
 
 	"verif/hist"
+	"verif/stats"
 )
 
 var (
@@ -261,4 +265,35 @@ func TestC14(t *testing.T) {
 			return r.M.C["nt/expired-at-pull"]+r.M.C["nt/delayed-at-pull"]+r.M.C["subs-expired"] > 0 && len(r.M.Rcv) > 0
 		}}
 	rapid.Check(t, func(rt *rapid.T) { runE1(rt, s, sp) })
+}
+
+// TestC13TZ replays the F9 canary in a process whose time zone is not UTC (the
+// driver starts it with TZ set; Go reads TZ once at start-up). On SQLite
+// timestamps are stored and compared as text including the zone offset, so a
+// client-supplied (UTC) seek time is compared textually with locally-zoned
+// publish times.
+func TestC13TZ(t *testing.T) {
+	if os.Getenv("VERIF_TZ_SLICE") == "" {
+		t.Skip("only run by the driver in a process with a non-UTC TZ")
+	}
+	defer reportFailure(t, "C13")
+	b, err := os.ReadFile(filepath.Join(os.Getenv("VERIF_KNOWN_TZ_DIR"), "C13-F9.json"))
+	if err != nil {
+		t.Skip("no canary file")
+	}
+	var d replayDoc
+	var hc histCase
+	if json.Unmarshal(b, &d) != nil || json.Unmarshal(d.Case, &hc) != nil {
+		t.Fatal("bad canary file")
+	}
+	s := getSUT(t)
+	defer closeSUT()
+	r := hist.Replay(s, hc.Ops, hc.Seed, hc.Armed...)
+	stats.C.EvalN(1)
+	stats.C.Class("canary/C13-F9 under TZ="+time.Local.String(), 1)
+	if r.Viol != nil {
+		sig := violSig(r.Viol)
+		sig["tz"] = time.Local.String()
+		stats.C.Violate(stats.Violation{Property: "C13", Rule: r.Viol.Rule, Detail: "under TZ=" + time.Local.String() + ": " + r.Viol.Detail, Signature: sig, Replay: filepath.Join(os.Getenv("VERIF_KNOWN_TZ_DIR"), "C13-F9.json")})
+	}
 }
